@@ -207,7 +207,8 @@ def run_case(ctx, rng, case_policy='lower', layout='canonical'):
         return None
     stmts, exp_ret, clean, stats = gen
     tree = om.body(stmts)
-    text = om.render(tree, rng, layout=layout, case=case_policy)
+    import random
+    text = om.render(tree, rng, layout=layout, case=case_policy, case_rng=random.Random(rng.getrandbits(32)))
     pop_desc = (tuple(sorted((k, tuple(sorted(bound.shadow.rows[h].items(), key=repr))) for h, k in bound.shadow.kind.items())),
                 tuple(map(tuple, bound.shadow.pairs)))
     try:
